@@ -140,4 +140,73 @@ func c19Extra(r *core.Run, pkg string) {
 		}
 		o.Site(n, pkg)
 	})
+
+	r.Check("D1/K5/write-does-not-retain", "a Write([]byte) method of lib/logx that hands the record to another goroutine (channel send, go statement, closure, stored field) hands over a copy, never the caller's slice itself: io.Writer forbids retaining the argument, and logx's own plain-text path writes through fmt.Fprint, which recycles its buffer as soon as Write returns – a record still queued would be overwritten", func(o *core.O) {
+		n := 0
+		for _, f := range p.PkgFuncs(pkg) {
+			if f.Parent() != nil || f.Name() != "Write" || f.Signature.Recv() == nil || len(f.Params) != 2 || f.Params[1].Type().String() != "[]byte" {
+				continue
+			}
+			n++
+			r.Fn(core.FuncName(f))
+			isArg := func(v ssa.Value) bool {
+				// the parameter itself or a re-slice of it (same backing array); a copy (append to a fresh slice, copy into make) is a different value
+				for i := 0; i < 8; i++ {
+					v = core.Forward(v)
+					switch x := v.(type) {
+					case *ssa.Slice:
+						v = x.X
+						continue
+					case *ssa.ChangeType:
+						v = x.X
+						continue
+					}
+					break
+				}
+				prm, ok := v.(*ssa.Parameter)
+				return ok && prm == f.Params[1]
+			}
+			for _, g := range core.WithAnon(f) {
+				for _, b := range g.Blocks {
+					for _, in := range b.Instrs {
+						switch x := in.(type) {
+						case *ssa.Send:
+							if isArg(x.X) {
+								o.Fail(p.InstrPos(in), "%s sends the caller's slice to a channel: the receiver reads it after Write returned, when the caller may already have reused the buffer (fmt.Fprint does) – records are mangled, duplicated or lost", core.FuncName(f))
+							}
+						case *ssa.Store:
+							root := x.Addr
+							for i := 0; i < 6; i++ {
+								switch y := root.(type) {
+								case *ssa.IndexAddr:
+									root = y.X
+									continue
+								case *ssa.FieldAddr:
+									root = y.X
+									continue
+								}
+								break
+							}
+							if _, local := root.(*ssa.Alloc); !local && isArg(x.Val) {
+								o.Fail(p.InstrPos(in), "%s stores the caller's slice in %s and so retains it beyond the call", core.FuncName(f), core.Describe(x.Addr))
+							}
+						case *ssa.Go:
+							for _, a := range x.Call.Args {
+								if isArg(a) {
+									o.Fail(p.InstrPos(in), "%s passes the caller's slice to a goroutine", core.FuncName(f))
+								}
+							}
+						case *ssa.Select:
+							for _, st := range x.States {
+								if st.Send != nil && isArg(st.Send) {
+									o.Fail(p.InstrPos(in), "%s sends the caller's slice to a channel: the receiver reads it after Write returned, when the caller may already have reused the buffer (fmt.Fprint does) – records are mangled, duplicated or lost", core.FuncName(f))
+								}
+							}
+						}
+					}
+				}
+			}
+		}
+		o.Site(n, pkg)
+	})
 }
